@@ -440,11 +440,35 @@ class RefEngine:
                 elif op.get("undo") and self.last[0] is not None and self.last[0]["kind"] == "elevate":
                     sh.degree_decrease(self.last[0]["times"])
             elif kind == "remove":
-                if op.get("undo") and self.last[0] is not None and self.last[0]["kind"] == "insert":
-                    sh.knot_remove([float(v) for v in self.last[0]["nodes"]])
+                if op.get("undo"):
+                    if self.last[0] is not None and self.last[0]["kind"] == "insert":
+                        sh.knot_remove([float(v) for v in self.last[0]["nodes"]])
                 else:
-                    self.shadow = None
+                    vals, tags = self.resolve_all(curve, op["nodes"], self.cfg, self.alpha(curve))
+                    if "bad" in tags or not vals or op["tol"] == "neg":
+                        return
+                    tol = self.tol_value(op["tol"])
+                    try:
+                        if op["tol"] == "default":
+                            sh.knot_remove([float(v) for v in vals])
+                        else:
+                            sh.knot_remove([float(v) for v in vals], tol)
+                    except ValueError:
+                        pass
+            elif kind in ("knot_clean", "degree_clean", "clean"):
+                if op["tol"] not in ("default", "0", "1e-12"):
                     return
+                tol = self.tol_value(op["tol"])
+                if kind == "knot_clean":
+                    nodes = None
+                    if "nodes" in op:
+                        vals, _ = self.resolve_all(curve, op["nodes"], self.cfg, self.alpha(curve))
+                        nodes = [float(v) for v in vals]
+                    sh.knot_clean(nodes) if op["tol"] == "default" else sh.knot_clean(nodes, tol)
+                elif kind == "degree_clean":
+                    sh.degree_clean() if op["tol"] == "default" else sh.degree_clean(tol)
+                else:
+                    sh.clean() if op["tol"] == "default" else sh.clean(tol)
             else:
                 self.shadow = None
                 return
